@@ -138,8 +138,19 @@ class _FunctionCall(object):
             # an argument that is not passed is what its type says it is when
             # absent, just like over the wire
             ctx.in_object = [v.Attributes.default for v in _type_info.values()]
-            for i in range(len(args)):
-                ctx.in_object[i] = args[i]
+            if cnt == 0:
+                for i in range(len(args)):
+                    ctx.in_object[i] = args[i]
+
+                # positional arguments are named after the parameters of the
+                # primary method: an auxiliary method picks the ones it
+                # declares, just like over the wire
+                named_args = dict(zip(_type_info.keys(), args))
+
+            else:
+                for i, k in enumerate(_type_info.keys()):
+                    if k in named_args:
+                        ctx.in_object[i] = named_args[k]
 
             for i, k in enumerate(_type_info.keys()):
                 val = kwargs.get(k, None)
